@@ -118,6 +118,27 @@ def one_case(case):
         pr.destroy()
 
 
+def stale_tmp_other_dir():
+    """A `$3` file left by an earlier, killed build must not be taken for output of the current script, also when the
+    target is built from another directory than its .do file's.  Returns a list of problems."""
+    problems = []
+    for script, want, how in (("exit 0\n", None, "script writes nothing"), ("echo good\n", b"good\n", "script writes to stdout"),
+                              ('echo part >>"$3"\n', b"part\n", "script appends to $3")):
+        for argv, cwd in ((["redo", "sub/out"], "."), (["redo", "out"], "sub")):
+            pr = Project()
+            try:
+                pr.write("sub/out.do", script)
+                pr.write("sub/out.redo.tmp", "STALE-PARTIAL-OUTPUT\n")
+                rc, o, e = pr.run(argv, cwd=cwd, timeout=60)
+                got = pr.read("sub/out")
+                left = os.path.exists(pr.path("sub/out.redo.tmp"))
+                if rc != 0 or got != want or left:
+                    problems.append(dict(how=how, argv=argv, cwd=cwd, rc=rc, target=repr(got), expected=repr(want), tmp_left=left, stderr=e[-400:]))
+            finally:
+                pr.destroy()
+    return problems
+
+
 def run(ctx):
     rng = random.Random(ctx["seed"])
     viol = ctx.setdefault("violations", [])
@@ -196,6 +217,11 @@ def run(ctx):
             samples.append(dict(case=case, request=q, model=m, impl_ops=r["ops"], impl_done=r["done"]))
     if corr is not None and not viol:
         viol.append(corr)
+    if not viol:
+        probs = stale_tmp_other_dir()
+        if probs:
+            pth = write_replay("C04", "stale-tmp-dir", dict(kind="impl-monitor", problems=probs, scenario="sub/out.do with a stale sub/out.redo.tmp; redo sub/out from the top directory and redo out from sub/"))
+            viol.append(Violation("C04", pth, "stale $3 of an earlier build (%s, `%s` in %s): exit %s, target %s (expected %s), tmp left: %s" % (probs[0]["how"], " ".join(probs[0]["argv"]), probs[0]["cwd"], probs[0]["rc"], probs[0]["target"], probs[0]["expected"], probs[0]["tmp_left"])))
     return dict(evaluations=len(results), distinct_nontrivial=len(set(reqs)),
                 rule="behaviour product stdout{0,1,64K} x $3{none,1,64K,empty,created-then-deleted} x $1{untouched,written,written with an older mtime,deleted} x exit{0,1,7,SIGKILL at start,SIGKILL after output,SIGTERM at end} x prior{absent,generated} x stale tmp file{no,yes}, + target-is-a-non-empty-directory install failures (%s); distinct = distinct model inputs reached" % ("all %d" % len(full) if thorough else "seeded sample of 140 + 9 corner cases of %d" % len(full)),
                 samples=samples, exhaustive=thorough, disagreements_checked=len(results),
